@@ -62,6 +62,7 @@ use std::sync::Arc;
 mod cases;
 pub mod dynfits;
 pub mod pager;
+mod sessbind;
 mod types;
 
 pub use cases::generate;
